@@ -5,6 +5,7 @@
 import PysamlModel.Proofs.Sp
 import PysamlModel.Proofs.SpTimes
 import PysamlModel.Props.C04
+import PysamlModel.Model.SpAttr
 
 namespace C05
 open Sp
@@ -196,7 +197,8 @@ theorem C05_model_meets_spec_sound (cfg : Cfg) (env : Env) (r : Response) :
 
 /-- `strictlyInside` unpacked -/
 theorem strictlyInside_inv {cfg : Cfg} {env : Env} {r : Response} (h : strictlyInside cfg env r = true) :
-    (env.now - r.issueInstant < 86400 ∧ r.issueInstant - env.now < 86400) ∧ ∀ a ∈ visible r, insideA env a := by
+    (env.now - r.issueInstant < 86400 + cfg.skew ∧ r.issueInstant - env.now < 86400 + cfg.skew) ∧
+    ∀ a ∈ visible r, insideA cfg env a := by
   unfold strictlyInside at h
   simp only [Bool.and_eq_true, decide_eq_true_eq] at h
   refine ⟨h.1, ?_⟩
@@ -205,13 +207,16 @@ theorem strictlyInside_inv {cfg : Cfg} {env : Env} {r : Response} (h : strictlyI
   simp only [Bool.and_eq_true] at this
   obtain ⟨⟨hc, hs⟩, hsub⟩ := this
   have mk : ∀ (nb nooa : Option Int),
-      ((match nooa with | some t => decide (env.now < t) | none => true) &&
-       (match nb with | some t => decide (t < env.now) | none => true)) = true → insideOpt env.now nb nooa := by
+      ((match nooa with | some t => decide (env.now < t + cfg.skew) | none => true) &&
+       (match nb with | some b => decide (b < env.now + cfg.skew) | none => true) &&
+       (match nb, nooa with | some b, some t => decide (b ≤ t) | _, _ => true)) = true →
+      insideOpt env.now cfg.skew nb nooa := by
     intro nb nooa hh
     simp only [Bool.and_eq_true] at hh
-    constructor
-    · intro t ht; rw [ht] at hh; simpa using hh.1
-    · intro t ht; rw [ht] at hh; simpa using hh.2
+    refine ⟨?_, ?_, ?_⟩
+    · intro t ht; rw [ht] at hh; simpa using hh.1.1
+    · intro b hb; rw [hb] at hh; simpa using hh.1.2
+    · intro b t hb ht; rw [hb, ht] at hh; simpa using hh.2
   refine ⟨?_, ?_, ?_⟩
   · intro c hcc; rw [hcc] at hc; exact mk _ _ hc
   · intro s hss t ht
@@ -223,8 +228,11 @@ theorem strictlyInside_inv {cfg : Cfg} {env : Env} {r : Response} (h : strictlyI
     rw [hd] at this
     exact mk _ _ this
 
-/-- C05, completeness: strictly inside all validity windows an otherwise valid Response — its
-    time-sanitised copy is accepted — is accepted; for every clock, skew and message. -/
+/-- C05, completeness: strictly inside all validity windows widened by the skew (`now < NotOnOrAfter + skew`,
+    `NotBefore − skew < now`, `NotBefore ≤ NotOnOrAfter`, for Conditions, SessionNotOnOrAfter and every
+    SubjectConfirmationData; `|now − IssueInstant| < 86400 + skew`) an otherwise valid Response — its
+    time-sanitised copy is accepted — is accepted; for every clock, skew and message.  Only the single
+    second `now = bound ± skew` lies between this and the refusals of `C05_windows` / `C05_stale_instant`. -/
 theorem C05_inside_accepted (cfg : Cfg) (env : Env) (r : Response)
     (hvalid : (process cfg env (sanitiseTimes env r)).isIdentity = true)
     (hinside : strictlyInside cfg env r = true) :
@@ -321,5 +329,107 @@ example : process okCfg (okEnv 260) okResp = .identity
   { nameId := some "n", issuer := "", cameFrom := some "/x", notOnOrAfter := 500, sessionIndex := some "s", cached := true } := by decide
 example : process okCfg (okEnv 261) okResp = .rejected .expired := by decide
 example : process okCfg (okEnv 29) okResp = .rejected .premature := by decide
+
+/-! The completeness premise reaches into the skew (skew 60, NotOnOrAfter 200, NotBefore 90):
+    `now = 259 = NotOnOrAfter + skew − 1` and `now = 31 = NotBefore − skew + 1` fall under it, both premises of
+    `C05_inside_accepted` hold there; `260` / `30` are the unspecified boundary seconds (accepted by the
+    code, not demanded); `261` / `29` are refused (above). -/
+example : strictlyInside okCfg (okEnv 259) okResp = true := by decide
+example : (process okCfg (okEnv 259) okResp).isIdentity = true :=
+  C05_inside_accepted _ _ _ (by decide) (by decide)
+example : strictlyInside okCfg (okEnv 31) okResp = true := by decide
+example : (process okCfg (okEnv 31) okResp).isIdentity = true :=
+  C05_inside_accepted _ _ _ (by decide) (by decide)
+example : strictlyInside okCfg (okEnv 260) okResp = false := by decide
+example : strictlyInside okCfg (okEnv 30) okResp = false := by decide
+example : (process okCfg (okEnv 30) okResp).isIdentity = true := by decide
+/-- IssueInstant: a day plus skew minus one second old is inside, a day plus skew is the boundary. -/
+example : strictlyInside okCfg (okEnv 100) { okResp with issueInstant := 100 - 86400 - 59 } = true := by decide
+example : (process okCfg (okEnv 100) { okResp with issueInstant := 100 - 86400 - 59 }).isIdentity = true :=
+  C05_inside_accepted _ _ _ (by decide) (by decide)
+example : strictlyInside okCfg (okEnv 100) { okResp with issueInstant := 100 - 86400 - 60 } = false := by decide
+example : strictlyInside okCfg (okEnv 100) { okResp with issueInstant := 100 + 86400 + 59 } = true := by decide
+example : process okCfg (okEnv 100) { okResp with issueInstant := 100 + 86400 + 60 } = .noIdentity := by decide
+
+/-! The "not inverted" clause is needed for confirmation data: an inverted bearer window is skipped, not
+    refused, so a message strictly inside both skew-extended bounds (`145 < 140 + 60`, `150 < 145 + 60`) is
+    refused for want of a usable confirmation although its sanitised copy is accepted.  A degenerate window
+    `NotBefore = NotOnOrAfter` is not inverted and falls under the premise. -/
+private def scWindow (nb nooa : Int) : SubjConf :=
+  { method := .bearer, data := some { nb := some nb, nooa := some nooa, recipient := some "u", irt := some "r1" } }
+private def withScWindow (nb nooa : Int) : Response :=
+  { okResp with assertions := [{ okAssertion with subject := some { nameId := some "n", confs := [scWindow nb nooa] } }] }
+example : process okCfg (okEnv 145) (withScWindow 150 140) = .rejected .noValidSc := by decide
+example : (process okCfg (okEnv 145) (sanitiseTimes (okEnv 145) (withScWindow 150 140))).isIdentity = true := by decide
+example : strictlyInside okCfg (okEnv 145) (withScWindow 150 140) = false := by decide
+example : strictlyInside okCfg (okEnv 145) (withScWindow 150 150) = true := by decide
+example : (process okCfg (okEnv 145) (withScWindow 150 150)).isIdentity = true :=
+  C05_inside_accepted _ _ _ (by decide) (by decide)
+
+/-! ### The attribute-query answer path (reduction `processAttr`, Model/SpAttr.lean) -/
+
+/-- The windows the attribute path must respect: Conditions and usable bearer confirmation data
+    (AuthnStatements are not looked at in this context). -/
+def attrTimesOk (cfg : Cfg) (env : Env) (a : Assertion) : Bool :=
+  timesOk cfg env { a with authn := [] }
+
+theorem plainOf_attrView (r : Response) : plainOf (attrView r) = (plainOf r).map attrAssertion := by
+  unfold plainOf attrView
+  simp only [List.filter_map]
+  congr 1
+
+theorem encOf_attrView (r : Response) : encOf (attrView r) = (encOf r).map attrAssertion := by
+  unfold encOf attrView
+  simp only [List.filter_map]
+  congr 1
+
+theorem decOf_attrView (r : Response) : decOf (attrView r) = (decOf r).map attrAssertion := by
+  unfold decOf
+  rw [encOf_attrView, List.takeWhile_map]
+  congr 1
+
+theorem visible_attrView (r : Response) : visible (attrView r) = (visible r).map attrAssertion := by
+  unfold visible
+  rw [decOf_attrView, plainOf_attrView, List.map_append]
+
+theorem timesOk_attrAssertion (cfg : Cfg) (env : Env) (a : Assertion) :
+    timesOk cfg (attrEnv env) (attrAssertion a) = attrTimesOk cfg env a := by
+  unfold attrTimesOk timesOk attrAssertion attrEnv neutralStmt
+  simp
+
+theorem processAttr_identity {cfg : Cfg} {env : Env} {r : Response} {o : Reported}
+    (h : processAttr cfg env r = .identity o) :
+    ∃ o', process (attrCfg cfg) (attrEnv env) (attrView r) = .identity o' := by
+  unfold processAttr at h
+  cases hp : process (attrCfg cfg) (attrEnv env) (attrView r) with
+  | identity o' => exact ⟨o', rfl⟩
+  | noIdentity => rw [hp] at h; cases h
+  | rejected e => rw [hp] at h; cases h
+
+/-- C05 on the attribute path: an attribute-query answer yields identity only inside the Conditions and
+    confirmation windows (plus skew) of every assertion the SP can see, and only with a fresh IssueInstant. -/
+theorem C05_windows_attr {cfg : Cfg} {env : Env} {r : Response} {o : Reported}
+    (h : processAttr cfg env r = .identity o) :
+    (∀ a ∈ visible r, attrTimesOk cfg env a = true) ∧ issueInstantWithin cfg env r = true := by
+  obtain ⟨o', hp⟩ := processAttr_identity h
+  refine ⟨?_, ?_⟩
+  · intro a ha
+    have hw : timesOk cfg (attrEnv env) (attrAssertion a) = true :=
+      C05_windows hp (attrAssertion a) (by rw [visible_attrView]; exact List.mem_map_of_mem ha)
+    rw [timesOk_attrAssertion] at hw
+    exact hw
+  · have hi := C05_stale_instant hp
+    exact hi
+
+/-! Non-vacuity for the attribute path: an attribute assertion (no AuthnStatement) is accepted inside its windows,
+    within the skew, and refused one second later. -/
+private def attrAssertionEx : Assertion :=
+  { conditions := some { nb := some 90, nooa := some 200, audiences := [["me"]] },
+    subject := some { nameId := some "n", confs := [{ method := .bearer, data := some { nooa := some 200, recipient := some "u" } }] } }
+private def attrResp : Response := { sig := .valid, issueInstant := 100, assertions := [attrAssertionEx] }
+example : processAttr okCfg (okEnv 100) attrResp = .identity
+  { nameId := some "n", issuer := "", cameFrom := none, notOnOrAfter := 200, sessionIndex := none, cached := false } := by decide
+example : (processAttr okCfg (okEnv 260) attrResp).isIdentity = true := by decide
+example : processAttr okCfg (okEnv 261) attrResp = .rejected .expired := by decide
 
 end C05
